@@ -25,6 +25,39 @@ CHECKS = {
         "note": "Process-level isolation (tokio tasks) is runtime behaviour outside the model; observed by the harness.",
         "technique": "Coq proof (totality, store effect) + hostile-stream differential runs against the live server",
     },
+    "C15": {
+        "text": "Machine-checked proof over a transition system transcribing the permit handling of Listener::listen and Handler's "
+                "Drop: in every reachable state permits + connections served + the listener's held permit = max, hence never more "
+                "than max served, every slot back once connections ended (whatever the way each ended, panic included), full "
+                "capacity available again; partial: the semaphore and Drop-on-unwind are runtime behaviour. The check fills the real "
+                "server (max 1-3), verifies an extra connection is not served, ends served connections in six ways, verifies the "
+                "waiting one is then served, repeats, and verifies full capacity at the end.",
+        "design_ref": "DESIGN.md section 8, C15",
+        "note": "30-line LTS; timing-based observation (served = reply within 1.5-3 s, not served = none within 350 ms).",
+        "technique": "Coq invariant proof over an LTS + scenario runs against the live server",
+    },
+    "C16": {
+        "text": "Machine-checked proof over a transition system of Server::run / Handler::run / Shutdown: replies become visible whole "
+                "and only after their store operation, a handler only leaves between commands having replied to everything it "
+                "applied, and once the signal is out run can return after at most 3 events per connection + 1 with no client action "
+                "provided no handler is blocked writing to a non-reading client; that exception is a recorded finding with its own "
+                "theorem (C16_known_refuted). The check fires shutdown on the real server with clients idle / mid-frame / mid-burst / "
+                "mid-3MB-SET and verifies return within 4 s, whole replies then EOF, acknowledged SETs present.",
+        "design_ref": "DESIGN.md section 8, C16",
+        "note": "tokio select!/broadcast/mpsc are modelled; bounded-time termination assumes select eventually takes the shutdown branch. "
+                "One known finding (known_findings.json: blocked-writer).",
+        "technique": "Coq invariant/termination proof over an LTS + scenario runs against the live server",
+    },
+    "C17": {
+        "text": "Machine-checked proof over the closed-flag wrapper of the engine model and the worker's select: after the drop every "
+                "operation through any handle returns `closed` with unchanged state and no system call, forever; the worker reaches "
+                "its exit in at most two of its own steps without a timer tick; the directory of any reachable state reopens to the "
+                "same contents. Partial: thread/descriptor lifetime is observed (per-process /proc counts after a drop with a "
+                "one-hour timer and after 3-12 open/close cycles), not proved.",
+        "design_ref": "DESIGN.md section 8, C17",
+        "note": "Operations already past their closed check when the drop happens are concurrent with it and outside the statement.",
+        "technique": "Coq proof over a small model + lifecycle scenario runs with /proc observation",
+    },
     "C07": {
         "text": "Machine-checked proof (Coq 8.16) over a hand-written executable model of Frame::check / Frame::parse / "
                 "get_integer / get_line: totality (no panic, no out-of-fuel, nesting bounded by 33 calls), exactness of "
